@@ -29,7 +29,7 @@
 static PSemaphore *h[NH];
 static int h_live[NH], h_name[NH], h_gen[NH], h_owner[NH];
 static int r_exists[2], r_val[2], r_gen[2], gen_ctr;
-static int n_new, n_create_existing, n_ownerfree, n_acq, n_stale, n_nested;
+static int n_new, n_create_existing, n_ownerfree, n_acq, n_stale, n_nested, n_intr;
 
 #define PROC_OF(k) ((k) & 1)
 
@@ -55,8 +55,18 @@ static void op_acquire(int k) {
   int n = h_name[k];
   vk_cur = PROC_OF(k);
   vk_expect_noblock = is_current(k) && r_val[n] > 0;
+#ifdef EINTR_MAX
+  /* handled signals: sem_wait fails with EINTR at a symbolic subset (<= EINTR_MAX) of its invocations in this acquire;
+   * "an acquire returns only by consuming a unit" - interrupted or not */
+  vk_eintr_budget = ND_RANGE(0, EINTR_MAX);
+  int seen0 = vk_eintr_seen;
+#endif
   pboolean ok = p_semaphore_acquire(h[k], NULL);
   vk_expect_noblock = 0;
+#ifdef EINTR_MAX
+  vk_eintr_budget = 0;
+  if (vk_eintr_seen > seen0) n_intr++;
+#endif
   if (is_current(k)) {
     VASSERT(ok == TRUE, "acquire on a current handle returns TRUE");
     VASSERT(r_val[n] > 0, "acquire returned although the reference counter is 0 (unit not consumed from the shared counter)");
@@ -154,5 +164,8 @@ void harness(void) {
 #endif
 #ifdef PREEMPT
   if (n_nested >= 1) VWITNESS("nested acquire/release of the other process");
+#endif
+#ifdef EINTR_MAX
+  if (n_intr >= 1 && n_acq >= 1) VWITNESS("acquire on a current handle interrupted and completed");
 #endif
 }
